@@ -98,7 +98,7 @@ func (t *recTransport) RoundTrip(req *http.Request) (*http.Response, error) {
 		return nil, nextTransportErr()
 	}
 	return &http.Response{Status: "200 OK", StatusCode: 200, Proto: "HTTP/1.1", ProtoMajor: 1, ProtoMinor: 1,
-		Header: http.Header{}, Body: io.NopCloser(strings.NewReader("ok")), Request: req}, nil
+		Header: http.Header{}, Body: io.NopCloser(strings.NewReader("ok")), Request: req, ContentLength: nextFakeLength("ok")}, nil
 }
 
 type endState int
@@ -113,6 +113,12 @@ const (
 // process is parked (twice in a row), the attack can never end: deadlock. The
 // wall-clock watchdog only yields "inconclusive".
 func awaitEnd(done <-chan struct{}, watchdog time.Duration) (endState, string) {
+	return awaitEndIgnoring(done, watchdog, nil)
+}
+
+// awaitEndIgnoring is awaitEnd with goroutines the caller vouches for (e.g. an in-process server
+// waiting for network input that only the parked goroutines could send) counted as parked.
+func awaitEndIgnoring(done <-chan struct{}, watchdog time.Duration, ignore func(gInfo) bool) (endState, string) {
 	deadline := time.Now().Add(watchdog)
 	for polls := 0; ; polls++ {
 		select {
@@ -130,7 +136,7 @@ func awaitEnd(done <-chan struct{}, watchdog time.Duration) (endState, string) {
 		quiet := func() ([]gInfo, bool) {
 			gs := goroutineDump()
 			for _, g := range gs {
-				if g.State != "running" && !parkedState(g.State) {
+				if g.State != "running" && !parkedState(g.State) && (ignore == nil || !ignore(g)) {
 					return gs, false
 				}
 			}
